@@ -244,6 +244,441 @@ class _CanonStmts(ast.NodeTransformer):
         return out
 
 
+class _SubstNames(ast.NodeTransformer):
+    def __init__(self, mapping):
+        self.mapping = mapping
+
+    def visit_Name(self, node):
+        if isinstance(node.ctx, ast.Load) and node.id in self.mapping:
+            import copy as _copy
+            return ast.copy_location(_copy.deepcopy(self.mapping[node.id]), node)
+        return node
+
+
+class _CanonTables(ast.NodeTransformer):
+    """Table-driven dispatch back to the if/elif chain it abbreviates, and two small folds it needs:
+
+      * `for a, b in ((A1, B1), (A2, B2), ...): if <test(a, b)>: <body(a, b)>; break|return` [else: E]
+        over a literal tuple/list (written in place, bound once to a local just before, or a module-level
+        constant) becomes `if test(A1, B1): body(A1, B1) elif test(A2, B2): ... else: E`;
+      * `<X>.<MEMBER>.name` -> "MEMBER" (Enum member names), `getattr(a, "ident")` -> `a.ident`;
+      * `f = A if c else B` immediately followed by the only use `... f(args) ...` becomes
+        `if c: ... A(args) ... else: ... B(args) ...`.
+    """
+    MAX_ROWS = 40
+
+    def __init__(self, module_tables):
+        self.module_tables = module_tables
+        self.local_tables: list[dict] = []
+        self.name_counts: list[dict] = []
+
+    # -- scopes (the two folds live in _Folds, which runs after the unrolling has substituted the cells)
+    def _unused_visit_Attribute(self, node):
+        self.generic_visit(node)
+        if node.attr == "name" and isinstance(node.ctx, ast.Load) and isinstance(node.value, ast.Attribute) and node.value.attr.isupper() \
+                and isinstance(node.value.value, (ast.Name, ast.Attribute)):
+            return ast.copy_location(ast.Constant(value=node.value.attr), node)
+        return node
+
+    def _unused_visit_Call(self, node):
+        return node
+
+    def visit_FunctionDef(self, node):
+        tables, counts = {}, {}
+        stores: dict[str, int] = {}
+        for n in ast.walk(node):
+            if isinstance(n, ast.Name):
+                counts[n.id] = counts.get(n.id, 0) + 1
+                if isinstance(n.ctx, (ast.Store, ast.Del)):
+                    stores[n.id] = stores.get(n.id, 0) + 1
+        for n in ast.walk(node):
+            if isinstance(n, ast.Assign) and len(n.targets) == 1 and isinstance(n.targets[0], ast.Name) \
+                    and isinstance(n.value, (ast.Tuple, ast.List)) and stores.get(n.targets[0].id) == 1:
+                tables[n.targets[0].id] = n.value
+        self.local_tables.append(tables)
+        self.name_counts.append(counts)
+        self.generic_visit(node)
+        self.local_tables.pop()
+        self.name_counts.pop()
+        return node
+
+    visit_AsyncFunctionDef = visit_FunctionDef
+
+    def _table(self, it):
+        if isinstance(it, (ast.Tuple, ast.List)):
+            return it
+        if isinstance(it, ast.Name):
+            if self.local_tables and it.id in self.local_tables[-1]:
+                return self.local_tables[-1][it.id]
+            return self.module_tables.get(it.id)
+        return None
+
+    def visit_For(self, node):
+        self.generic_visit(node)
+        table = self._table(node.iter)
+        if table is None or not (1 <= len(table.elts) <= self.MAX_ROWS) or len(node.body) != 1:
+            return node
+        inner = node.body[0]
+        if not isinstance(inner, ast.If) or inner.orelse or not inner.body:
+            return node
+        last = inner.body[-1]
+        if not isinstance(last, (ast.Break, ast.Return, ast.Raise)):
+            return node
+        rest = inner.body[:-1] if isinstance(last, ast.Break) else inner.body
+        for st in (inner.body[:-1]):
+            for x in ast.walk(st):
+                if isinstance(x, (ast.Break, ast.Continue)):
+                    return node
+        tnames = [node.target] if isinstance(node.target, ast.Name) else (list(node.target.elts) if isinstance(node.target, ast.Tuple) else None)
+        if tnames is None or not all(isinstance(t, ast.Name) for t in tnames):
+            return node
+        ids = [t.id for t in tnames]
+        for x in ast.walk(inner):
+            if isinstance(x, ast.Name) and x.id in ids and isinstance(x.ctx, (ast.Store, ast.Del)):
+                return node
+        rows = []
+        for e in table.elts:
+            if isinstance(node.target, ast.Name):
+                vals = [e]
+            else:
+                if not isinstance(e, (ast.Tuple, ast.List)) or len(e.elts) != len(ids):
+                    return node
+                vals = list(e.elts)
+            if any(isinstance(v, (ast.Starred,)) or any(isinstance(y, (ast.Call, ast.Await, ast.Yield, ast.NamedExpr)) for y in ast.walk(v)) for v in vals):
+                return node  # only side-effect-free cells
+            rows.append(dict(zip(ids, vals)))
+        import copy as _copy
+        chain_else = list(node.orelse)
+        for row in reversed(rows):
+            sub = _SubstNames(row)
+            test = sub.visit(_copy.deepcopy(inner.test))
+            body = [sub.visit(_copy.deepcopy(st)) for st in rest] or [ast.copy_location(ast.Pass(), inner)]
+            chain_else = [ast.copy_location(ast.If(test=test, body=body, orelse=chain_else), inner)]
+        return chain_else[0] if len(chain_else) == 1 else node
+
+    # -- callable chosen by a conditional expression
+    def generic_visit(self, node):
+        super().generic_visit(node)
+        if self.name_counts:
+            for fld in ("body", "orelse", "finalbody"):
+                b = getattr(node, fld, None)
+                if isinstance(b, list) and len(b) >= 2 and isinstance(b[0], ast.stmt):
+                    setattr(node, fld, self._expand_selected_callable(b))
+        return node
+
+    def _expand_selected_callable(self, body):
+        import copy as _copy
+        out, i = [], 0
+        while i < len(body):
+            st = body[i]
+            nxt = body[i + 1] if i + 1 < len(body) else None
+            if (nxt is not None and isinstance(st, ast.Assign) and len(st.targets) == 1 and isinstance(st.targets[0], ast.Name)
+                    and isinstance(st.value, ast.IfExp) and isinstance(st.value.body, ast.Name) and isinstance(st.value.orelse, ast.Name)
+                    and self.name_counts[-1].get(st.targets[0].id, 0) == 2 and isinstance(nxt, (ast.Assign, ast.Return, ast.Expr, ast.AnnAssign))):
+                v = st.targets[0].id
+                uses = [x for x in ast.walk(nxt) if isinstance(x, ast.Call) and isinstance(x.func, ast.Name) and x.func.id == v]
+                if len(uses) == 1:
+                    a = _SubstNames({v: st.value.body}).visit(_copy.deepcopy(nxt))
+                    b = _SubstNames({v: st.value.orelse}).visit(_copy.deepcopy(nxt))
+                    out.append(ast.copy_location(ast.If(test=st.value.test, body=[a], orelse=[b]), st))
+                    i += 2
+                    continue
+            out.append(st)
+            i += 1
+        return out
+
+
+class _Folds(ast.NodeTransformer):
+    """`<X>.<MEMBER>.name` -> "MEMBER" (an Enum member's name), `getattr(a, "ident")` -> `a.ident`"""
+
+    def visit_Attribute(self, node):
+        self.generic_visit(node)
+        if node.attr == "name" and isinstance(node.ctx, ast.Load) and isinstance(node.value, ast.Attribute) and node.value.attr.isupper() \
+                and isinstance(node.value.value, (ast.Name, ast.Attribute)):
+            return ast.copy_location(ast.Constant(value=node.value.attr), node)
+        return node
+
+    def visit_Call(self, node):
+        self.generic_visit(node)
+        if isinstance(node.func, ast.Name) and node.func.id == "getattr" and len(node.args) == 2 and not node.keywords \
+                and isinstance(node.args[1], ast.Constant) and isinstance(node.args[1].value, str) and node.args[1].value.isidentifier():
+            return ast.copy_location(ast.Attribute(value=node.args[0], attr=node.args[1].value, ctx=ast.Load()), node)
+        return node
+
+
+def _lock_context_managers(tree: ast.AST) -> dict:
+    """module-level `@contextmanager def G(p): p.acquire(); try: yield; finally: p.release()` -> {G: param}"""
+    out = {}
+    for st in getattr(tree, "body", []):
+        if not isinstance(st, ast.FunctionDef) or len(st.args.args) != 1:
+            continue
+        if not any((isinstance(d, ast.Name) and d.id == "contextmanager") or (isinstance(d, ast.Attribute) and d.attr == "contextmanager") for d in st.decorator_list):
+            continue
+        prm = st.args.args[0].arg
+        body = [b for b in st.body if not (isinstance(b, ast.Expr) and isinstance(b.value, ast.Constant))]
+        if len(body) != 2 or not isinstance(body[1], ast.Try) or body[1].handlers or body[1].orelse:
+            continue
+        a, t = body
+        ok_a = isinstance(a, ast.Expr) and ast.unparse(a.value) == f"{prm}.acquire()"
+        ok_y = len(t.body) == 1 and isinstance(t.body[0], ast.Expr) and isinstance(t.body[0].value, ast.Yield) and t.body[0].value.value is None
+        ok_r = len(t.finalbody) == 1 and isinstance(t.finalbody[0], ast.Expr) and ast.unparse(t.finalbody[0].value) == f"{prm}.release()"
+        if ok_a and ok_y and ok_r:
+            out[st.name] = prm
+    return out
+
+
+class _CanonLockRegions(ast.NodeTransformer):
+    """`X.acquire(); try: BODY finally: X.release()` -> `with G(X): BODY` when the module defines the context manager
+    G exactly as that acquire / try-yield / finally-release sequence (the two spellings are the same program)."""
+
+    def __init__(self, managers):
+        self.g = sorted(managers)[0] if managers else None
+
+    def visit_FunctionDef(self, node):
+        if node.name == self.g:
+            return node  # the definition itself stays as it is
+        return self.generic_visit(node)
+
+    def generic_visit(self, node):
+        super().generic_visit(node)
+        if self.g is None:
+            return node
+        for fld in ("body", "orelse", "finalbody"):
+            b = getattr(node, fld, None)
+            if isinstance(b, list) and len(b) >= 2 and isinstance(b[0], ast.stmt):
+                out, i = [], 0
+                while i < len(b):
+                    st, nxt = b[i], (b[i + 1] if i + 1 < len(b) else None)
+                    if (isinstance(st, ast.Expr) and isinstance(st.value, ast.Call) and isinstance(st.value.func, ast.Attribute)
+                            and st.value.func.attr == "acquire" and not st.value.args and not st.value.keywords
+                            and isinstance(nxt, ast.Try) and not nxt.handlers and not nxt.orelse and len(nxt.finalbody) == 1
+                            and isinstance(nxt.finalbody[0], ast.Expr)
+                            and ast.unparse(nxt.finalbody[0].value) == ast.unparse(st.value.func.value) + ".release()"):
+                        w = ast.With(items=[ast.withitem(context_expr=ast.Call(func=ast.Name(id=self.g, ctx=ast.Load()), args=[st.value.func.value], keywords=[]),
+                                                         optional_vars=None)], body=nxt.body)
+                        out.append(ast.copy_location(w, st))
+                        i += 2
+                        continue
+                    out.append(st)
+                    i += 1
+                setattr(node, fld, out)
+        return node
+
+
+class _InlineDelegates(ast.NodeTransformer):
+    """A method / function whose whole body is one call of a module-level function of the same module, with plain
+    names / attribute chains / constants as arguments, is the body of that function with the parameters
+    substituted ("move method body to a module-level helper" undone)."""
+
+    def __init__(self, module_funcs):
+        self.funcs = module_funcs
+
+    def visit_FunctionDef(self, node):
+        self.generic_visit(node)
+        body = [b for b in node.body if not (isinstance(b, ast.Expr) and isinstance(b.value, ast.Constant))]
+        if len(body) != 1 or not isinstance(body[0], (ast.Expr, ast.Return)) or not isinstance(body[0].value, ast.Call):
+            return node
+        call = body[0].value
+        if not isinstance(call.func, ast.Name) or call.func.id not in self.funcs or call.func.id == node.name:
+            return node
+        g = self.funcs[call.func.id]
+        ga = g.args
+        if ga.vararg or ga.kwarg or ga.kwonlyargs or ga.posonlyargs or g.decorator_list or call.keywords and any(k.arg is None for k in call.keywords):
+            return node
+        params = [a.arg for a in ga.args]
+        simple = lambda e: isinstance(e, (ast.Name, ast.Constant)) or (isinstance(e, ast.Attribute) and simple(e.value))  # noqa: E731
+        binding = {}
+        for name, a in zip(params, call.args):
+            binding[name] = a
+        for k in call.keywords:
+            binding[k.arg] = k.value
+        for name, d in zip(params[len(params) - len(ga.defaults):], ga.defaults):
+            binding.setdefault(name, d)
+        if set(binding) != set(params) or len(call.args) > len(params) or not all(simple(v) for v in binding.values()):
+            return node
+        for x in ast.walk(g):
+            if isinstance(x, (ast.Yield, ast.YieldFrom, ast.Await, ast.Global, ast.Nonlocal)) or (x is not g and isinstance(x, (ast.FunctionDef, ast.Lambda, ast.ClassDef))):
+                return node
+            if isinstance(x, ast.Name) and x.id in params and isinstance(x.ctx, (ast.Store, ast.Del)):
+                return node
+        if isinstance(body[0], ast.Expr) and any(isinstance(x, ast.Return) and x.value is not None for x in ast.walk(g)):
+            return node  # the caller discards the value; keep it simple
+        # the helper's own locals must not collide with names of the caller's arguments
+        glocals = {x.id for x in ast.walk(g) if isinstance(x, ast.Name) and isinstance(x.ctx, ast.Store)}
+        if any(isinstance(y, ast.Name) and y.id in glocals for v in binding.values() for y in ast.walk(v)):
+            return node
+        import copy as _copy
+        new_body = [_SubstNames(binding).visit(_copy.deepcopy(st)) for st in g.body
+                    if not (isinstance(st, ast.Expr) and isinstance(st.value, ast.Constant))]
+        node.body = [b for b in node.body if isinstance(b, ast.Expr) and isinstance(b.value, ast.Constant)][:1] + new_body
+        return node
+
+
+class _SpliceGuardHelpers(ast.NodeTransformer):
+    """`def f(self, ..): return self._a(args) and self._b(args)` where `_a` is a guard-style method of the same class
+    (its only `return True` is its last statement; every other exit is `return False` or a raise) is the body of `_a`
+    without that last statement, followed by the body of `_b` ("split one helper into two" undone). Arguments must be
+    plain names / attribute chains / constants and the parameters must not be rebound."""
+
+    def visit_ClassDef(self, node):
+        self.generic_visit(node)
+        methods = {st.name: st for st in node.body if isinstance(st, ast.FunctionDef)}
+        self.spliced = getattr(self, "spliced", set())
+        for f in list(methods.values()):
+            body = [b for b in f.body if not (isinstance(b, ast.Expr) and isinstance(b.value, ast.Constant))]
+            if len(body) != 1 or not isinstance(body[0], ast.Return) or not isinstance(body[0].value, ast.BoolOp) or not isinstance(body[0].value.op, ast.And):
+                continue
+            calls = body[0].value.values
+            if not all(isinstance(c, ast.Call) and isinstance(c.func, ast.Attribute) and isinstance(c.func.value, ast.Name) and c.func.value.id == "self"
+                       and c.func.attr in methods and c.func.attr != f.name and not c.keywords for c in calls):
+                continue
+            pieces, ok = [], True
+            for i, c in enumerate(calls):
+                g = methods[c.func.attr]
+                params = [a.arg for a in g.args.args][1:]
+                if g.args.vararg or g.args.kwarg or g.args.kwonlyargs or g.decorator_list or len(params) != len(c.args):
+                    ok = False
+                    break
+                simple = lambda e: isinstance(e, (ast.Name, ast.Constant)) or (isinstance(e, ast.Attribute) and simple(e.value))  # noqa: E731
+                if not all(simple(a) for a in c.args):
+                    ok = False
+                    break
+                for x in ast.walk(g):
+                    if isinstance(x, ast.Name) and x.id in params and isinstance(x.ctx, (ast.Store, ast.Del)):
+                        ok = False
+                gb = [b for b in g.body if not (isinstance(b, ast.Expr) and isinstance(b.value, ast.Constant))]
+                is_true = lambda r: isinstance(r, ast.Return) and isinstance(r.value, ast.Constant) and r.value.value is True  # noqa: E731
+                if i < len(calls) - 1:
+                    # all but the last: `return True` exactly once, as the last statement
+                    rets_true = [x for x in ast.walk(g) if is_true(x)]
+                    if not gb or not is_true(gb[-1]) or len(rets_true) != 1:
+                        ok = False
+                        break
+                    gb = gb[:-1]
+                import copy as _copy
+                binding = dict(zip(params, c.args))
+                pieces += [_SubstNames(binding).visit(_copy.deepcopy(st)) for st in gb]
+                if not ok:
+                    break
+            if ok and pieces:
+                f.body = [b for b in f.body if isinstance(b, ast.Expr) and isinstance(b.value, ast.Constant)][:1] + pieces
+                self.spliced |= {c.func.attr for c in calls}
+        return node
+
+
+def _inline_new_single_call_helpers(tree: ast.AST, ref_private: set) -> int:
+    """"Extract method" undone: a private method / module-level private function that the reference tree does not
+    have, that is referenced exactly once in its module - as `self._h(args)` / `_h(args)` forming a whole statement
+    (`call`, `x = call`, `return call`) with plain arguments - and whose body has no early return, is put back in
+    place of that statement.  `ref_private` = qualified names of the reference tree's private functions."""
+    import copy as _copy
+    n_inlined = 0
+    simple = lambda e: isinstance(e, (ast.Name, ast.Constant)) or (isinstance(e, ast.Attribute) and simple(e.value))  # noqa: E731
+
+    def candidates(scope_body, prefix, is_class):
+        for st in list(scope_body):
+            if isinstance(st, ast.FunctionDef) and st.name.startswith("_") and not st.name.endswith("__") \
+                    and f"{prefix}{st.name}" not in ref_private and not st.decorator_list:
+                yield st
+
+    def try_inline(h, scope_body, is_class, owner_nodes):
+        nonlocal n_inlined
+        a = h.args
+        if a.vararg or a.kwarg or a.kwonlyargs or a.posonlyargs:
+            return
+        params = [x.arg for x in a.args][1 if is_class else 0:]
+        # exactly one reference in the module
+        refs = []
+        for n in ast.walk(tree):
+            if is_class and isinstance(n, ast.Attribute) and n.attr == h.name:
+                refs.append(n)
+            elif not is_class and isinstance(n, ast.Name) and n.id == h.name:
+                refs.append(n)
+        if len(refs) != 1:
+            return
+        body = [b for b in h.body if not (isinstance(b, ast.Expr) and isinstance(b.value, ast.Constant))]
+        rets = [x for x in ast.walk(h) if isinstance(x, ast.Return)]
+        for x in ast.walk(h):
+            if isinstance(x, (ast.Yield, ast.YieldFrom, ast.Await, ast.Global, ast.Nonlocal)) or (x is not h and isinstance(x, (ast.FunctionDef, ast.Lambda, ast.ClassDef))):
+                return
+            if isinstance(x, ast.Name) and x.id in params and isinstance(x.ctx, (ast.Store, ast.Del)):
+                return
+        tail_value = None
+        if rets:
+            if len(rets) != 1 or rets[0] is not body[-1]:
+                return
+            tail_value = rets[0].value
+            body = body[:-1]
+        # find the statement that is the call
+        for owner in owner_nodes:
+            for parent in ast.walk(owner):
+                for fld in ("body", "orelse", "finalbody"):
+                    blk = getattr(parent, fld, None)
+                    if not isinstance(blk, list):
+                        continue
+                    for i, st in enumerate(blk):
+                        call = st.value if isinstance(st, (ast.Expr, ast.Return, ast.Assign, ast.AnnAssign)) else None
+                        if not isinstance(call, ast.Call) or call.func is not refs[0]:
+                            continue
+                        if is_class and not (isinstance(call.func.value, ast.Name) and call.func.value.id in ("self", "cls")):
+                            return
+                        if call.keywords and any(k.arg is None for k in call.keywords):
+                            return
+                        binding = dict(zip(params, call.args))
+                        for k in call.keywords:
+                            binding[k.arg] = k.value
+                        for name, d in zip(params[len(params) - len(a.defaults):], a.defaults):
+                            binding.setdefault(name, d)
+                        if set(binding) != set(params) or len(call.args) > len(params) or not all(simple(v) for v in binding.values()):
+                            return
+                        if isinstance(st, ast.Expr) and tail_value is not None:
+                            return
+                        if isinstance(st, (ast.Assign, ast.AnnAssign, ast.Return)) and tail_value is None:
+                            return
+                        # helper locals vs names used by the caller function
+                        hl = {x.id for x in ast.walk(h) if isinstance(x, ast.Name) and isinstance(x.ctx, ast.Store)}
+                        fn = owner
+                        used = {x.id for x in ast.walk(fn) if isinstance(x, ast.Name)} | {x.arg for x in ast.walk(fn) if isinstance(x, ast.arg)}
+                        if hl & used:
+                            return
+                        new = [_SubstNames(binding).visit(_copy.deepcopy(b)) for b in body]
+                        if tail_value is not None:
+                            tv = _SubstNames(binding).visit(_copy.deepcopy(tail_value))
+                            if isinstance(st, ast.Return):
+                                new.append(ast.copy_location(ast.Return(value=tv), st))
+                            elif isinstance(st, ast.Assign):
+                                new.append(ast.copy_location(ast.Assign(targets=st.targets, value=tv), st))
+                            else:
+                                new.append(ast.copy_location(ast.AnnAssign(target=st.target, annotation=st.annotation, value=tv, simple=st.simple), st))
+                        blk[i:i + 1] = new or [ast.copy_location(ast.Pass(), st)]
+                        scope_body.remove(h)
+                        n_inlined += 1
+                        return
+
+    for node in list(getattr(tree, "body", [])):
+        if isinstance(node, ast.ClassDef):
+            methods = [st for st in node.body if isinstance(st, ast.FunctionDef)]
+            for h in list(candidates(node.body, node.name + ".", True)):
+                try_inline(h, node.body, True, [m for m in methods if m is not h])
+    mod_funcs = [st for st in getattr(tree, "body", []) if isinstance(st, ast.FunctionDef)]
+    all_funcs = [n for n in ast.walk(tree) if isinstance(n, ast.FunctionDef)]
+    for h in list(candidates(getattr(tree, "body", []), "", False)):
+        try_inline(h, tree.body, False, [f for f in all_funcs if f is not h])
+    return n_inlined
+
+
+def _module_tables(tree: ast.AST) -> dict:
+    """module-level `NAME = (<literal rows>)` bound once"""
+    out, seen = {}, {}
+    for st in getattr(tree, "body", []):
+        tg = st.targets[0] if isinstance(st, ast.Assign) and len(st.targets) == 1 else (st.target if isinstance(st, ast.AnnAssign) else None)
+        if isinstance(tg, ast.Name):
+            seen[tg.id] = seen.get(tg.id, 0) + 1
+            if isinstance(getattr(st, "value", None), (ast.Tuple, ast.List)):
+                out[tg.id] = st.value
+    return {k: v for k, v in out.items() if seen.get(k) == 1}
+
+
 _LOCALNAMES: dict | None = None
 
 
@@ -259,6 +694,14 @@ def _alpha_normalise(tree: ast.AST, relpath: str, digest: str | None = None) -> 
 
 
 def canonicalise(tree: ast.AST) -> ast.AST:
+    mfuncs = {st.name: st for st in getattr(tree, "body", []) if isinstance(st, ast.FunctionDef)}
+    tree = _InlineDelegates(mfuncs).visit(tree)
+    sp = _SpliceGuardHelpers()
+    tree = sp.visit(tree)
+    tree._spliced_helpers = getattr(sp, "spliced", set())
+    tree = _CanonLockRegions(_lock_context_managers(tree)).visit(tree)
+    tree = _CanonTables(_module_tables(tree)).visit(tree)
+    tree = _Folds().visit(tree)
     tree = _Canon().visit(tree)
     tree = _CanonStmts().visit(tree)
     ast.fix_missing_locations(tree)
@@ -297,10 +740,36 @@ def _finish_modules(modules: dict) -> int:
         n_private = len(mapping)
     else:
         n_private = 0
+    if ref and not os.environ.get("VERIF_NO_ALPHA"):
+        for m in modules.values():
+            r = ref.get(m.relpath)
+            if r and r.get("__digest__") != m.digest and "__funcs__" in r:
+                _inline_new_single_call_helpers(m.tree, set(r["__funcs__"]))
     for m in modules.values():
         m.same_as_reference = bool(ref.get(m.relpath, {}).get("__digest__") == m.digest) if ref else False
         m.renamed_locals = _alpha_normalise(m.tree, m.relpath, m.digest)  # before canonicalise: operand order depends on names
         m.tree = canonicalise(m.tree)
+    # private helper methods whose body was spliced into their only caller and that nothing in the package refers to
+    # any more are dead code: drop them, so that censuses do not analyse a fragment out of its (former) context
+    spliced = set()
+    for m in modules.values():
+        spliced |= getattr(m.tree, "_spliced_helpers", set())
+    if spliced:
+        refs: dict[str, int] = {}
+        for m in modules.values():
+            for n in ast.walk(m.tree):
+                if isinstance(n, ast.Attribute) and n.attr in spliced:
+                    refs[n.attr] = refs.get(n.attr, 0) + 1
+                elif isinstance(n, ast.Name) and n.id in spliced:
+                    refs[n.id] = refs.get(n.id, 0) + 1
+                elif isinstance(n, ast.Constant) and isinstance(n.value, str) and n.value in spliced:
+                    refs[n.value] = refs.get(n.value, 0) + 1
+        dead = {h for h in spliced if h.startswith("_") and refs.get(h, 0) == 0}
+        if dead:
+            for m in modules.values():
+                for n in ast.walk(m.tree):
+                    if isinstance(n, ast.ClassDef):
+                        n.body = [st for st in n.body if not (isinstance(st, ast.FunctionDef) and st.name in dead)] or [ast.Pass()]
     return n_private
 
 
